@@ -21,16 +21,19 @@
 (* splitField); TLC checks that they agree on every line (OpAgrees).               *)
 EXTENDS Naturals, Sequences, FiniteSets, TLC
 
-CONSTANTS A1, N1, A2, N2, A3, N3, A4, N4   \* token alphabets and length bounds
+CONSTANTS A1, N1, A2, N2, A3, N3, A4, N4,  \* token alphabets and length bounds (generation)
+          Lower, Upper, Digits,            \* character classes: sets of one-character strings
+          AsciiBlank, WS,                  \* space/tab;  every white-space character (AsciiBlank is a subset)
+          BenchChars, UnitChars            \* the literal prefixes as character sequences
 
-Lower  == {"a", "a0", "@", "e", "n", "c", "h", "m", "r", "k", "i", "t"}
-Upper  == {"Z", "B", "U"}
-Digits == {"1"}
-AsciiBlank == {" ", ">"}
-WS     == {" ", ">", "~"}
-
-BenchChars == <<"B", "e", "n", "c", "h", "m", "a0", "r", "k">>   \* "a0": the letter a of the literal prefix
-UnitChars  == <<"U", "n", "i", "t">>
+\* the classes of the placeholder alphabet used for generation (cfg: Lower <- GenLower ...)
+GenLower  == {"a", "a0", "@", "e", "n", "c", "h", "m", "r", "k", "i", "t"}
+GenUpper  == {"Z", "B", "U"}
+GenDigits == {"1"}
+GenAsciiBlank == {" ", ">"}
+GenWS     == {" ", ">", "~"}
+GenBenchChars == <<"B", "e", "n", "c", "h", "m", "a0", "r", "k">>   \* "a0": the letter a of the literal prefix
+GenUnitChars  == <<"U", "n", "i", "t">>
 
 RECURSIVE Expand(_)
 Expand(toks) ==
@@ -72,7 +75,7 @@ Pairs(fs) ==          \* returns <<ok, seq of [v, u]>>
        <<r[1], <<[v |-> fs[1], u |-> fs[2]]>> \o r[2]>>
 
 BenchLine(L) ==
-  LET rest  == DropN(L, 9)
+  LET rest  == DropN(L, Len(BenchChars))
       name  == TakeNonWS(rest)
       after == DropN(rest, Len(name))
       fs    == Fields(after)
@@ -87,7 +90,7 @@ BenchLine(L) ==
 -----------------------------------------------------------------------------
 \* Unit lines
 
-IsUnitLine(L) == HasPrefix(L, UnitChars) /\ (Len(L) = 4 \/ L[5] \in WS)
+IsUnitLine(L) == HasPrefix(L, UnitChars) /\ (Len(L) = Len(UnitChars) \/ L[Len(UnitChars) + 1] \in WS)
 
 \* records produced by the key=value fields, first value per key wins
 RECURSIVE UnitItems(_, _)
@@ -104,10 +107,13 @@ UnitItems(fs, seen) ==
                   ELSE IF seen[k] = v THEN UnitItems(Tail(fs), seen)         \* repetition ignored
                   ELSE <<Err>> \o UnitItems(Tail(fs), seen)                  \* conflict
 
-UnitLine(L) ==
-  LET fs == Fields(DropN(L, 4)) IN
+\* have(u): the metadata already known for unit u (key -> value); one line on its own: none
+UnitLineWith(L, have(_)) ==
+  LET fs == Fields(DropN(L, Len(UnitChars))) IN
   IF fs = <<>> THEN [kind |-> "unitline", unit |-> <<>>, recs |-> <<Err>>]   \* missing unit
-  ELSE [kind |-> "unitline", unit |-> fs[1], recs |-> UnitItems(Tail(fs), <<>>)]
+  ELSE [kind |-> "unitline", unit |-> fs[1], recs |-> UnitItems(Tail(fs), have(fs[1]))]
+NoMeta(u) == <<>>
+UnitLine(L) == UnitLineWith(L, NoMeta)
 
 -----------------------------------------------------------------------------
 \* key: value lines (declarative)
@@ -127,10 +133,11 @@ KVLine(L) ==
                IN IF val = <<>> THEN [kind |-> "del", key |-> key]
                   ELSE [kind |-> "set", key |-> key, val |-> val]
 
-Classify(L) ==
+ClassifyWith(L, have(_)) ==
   IF HasPrefix(L, BenchChars) THEN BenchLine(L)
-  ELSE IF IsUnitLine(L) THEN UnitLine(L)
+  ELSE IF IsUnitLine(L) THEN UnitLineWith(L, have)
   ELSE KVLine(L)
+Classify(L) == ClassifyWith(L, NoMeta)
 
 -----------------------------------------------------------------------------
 \* operational transcriptions of the scanners in benchfmt/reader.go
